@@ -56,15 +56,16 @@ func main() {
 		}
 		res := make([]map[string]interface{}, len(cases))
 		var wg sync.WaitGroup
-		sem := make(chan struct{}, 16)
-		for i := range cases {
+		const workers = 16
+		for wk := 0; wk < workers; wk++ {
 			wg.Add(1)
-			sem <- struct{}{}
-			go func(i int) {
+			go func(wk int) {
 				defer wg.Done()
-				res[i] = runC14(cases[i], *seed+i)
-				<-sem
-			}(i)
+				sh := &sharedSet{tr: &swapHTTP{}} // long-lived clients of this worker
+				for i := wk; i < len(cases); i += workers {
+					res[i] = runC14(cases[i], *seed+i, sh)
+				}
+			}(wk)
 		}
 		wg.Wait()
 		for _, r := range res {
